@@ -11,7 +11,7 @@ import (
 func init() {
 	reg("C22", Meta{
 		Technique:   "must-follow rule on SSA (every change of a depth input is followed by a recompute on all paths), lockset analysis for depth/radius, operand-shape rule for the recompute function",
-		Explanation: "C22 (neighbourhood depth), structural clauses: (F1) in pkg/topology/kademlia every connectedPeers.Add/Remove, every assignment of the storage radius and every recorded peer-reachability change is followed on all paths to the function's exit by `k.depth = recalcDepth(k.connectedPeers, k.radius, k.peerFilter)` — otherwise the published depth is not a function of the current peer set; (Lk1) depth and radius are accessed only with depthMu held; (Y1) recalcDepth reads nothing but its arguments and package-level thresholds (no receiver state, so it cannot depend on connection order). Not decided: the depth arithmetic itself (radius cap, saturation thresholds).",
+		Explanation: "C22 (neighbourhood depth), structural clauses: (F1) in pkg/topology/kademlia every connectedPeers.Add/Remove, every assignment of the storage radius and every recorded peer-reachability change is followed on all paths to the function's exit by `k.depth = recalcDepth(k.connectedPeers, k.radius, k.peerFilter)` — otherwise the published depth is not a function of the current peer set; (Lk1) depth and radius are accessed only with depthMu held; (Y1) recalcDepth reads nothing but its arguments and package-level thresholds (no receiver state, so it cannot depend on connection order); (G1) inside recalcDepth's iteration callbacks every counter / candidate is written only on paths where the reachability filter let the peer pass; (G2) every returned depth is the radius itself, zero, or a value tested to be at most the radius; (G3) the constant zero is returned exactly on the `Length() <= nnLowWatermark` branch. Not decided: the remaining depth arithmetic (saturation thresholds, shallowest-empty-bin logic).",
 	}, c22)
 	reg("C23", Meta{
 		Technique:   "bad-edge / must-guard reachability on SSA for candidate selection and result classification, must-follow rule for skip accumulation",
@@ -19,7 +19,7 @@ func init() {
 	}, c23)
 	reg("C24", Meta{
 		Technique:   "must-guard reachability and must-precede on SSA, who-may-call enumeration of connected-set mutations",
-		Explanation: "C24 (topology tracks live connections), structural clauses: (W1) connectedPeers is mutated only by Outbound, onConnected (Add) and Disconnected, DisconnectForce (Remove); (G1) Outbound adds a peer only behind !IsBootNode(); (F1) every connectedPeers.Add(x) is preceded by knownPeers.Add(x) of the same peer (connected ⊆ known); (F2) Disconnected and DisconnectForce remove the peer from the connected set on every path that reports success; (G2) Connected admits (onConnected) only behind not-oversaturated ∨ protected peer ∨ boot-node mode ∨ forceConnection. Not decided: the exact connected set over histories (needs execution), the saturation arithmetic.",
+		Explanation: "C24 (topology tracks live connections), structural clauses: (W1) connectedPeers is mutated only by Outbound, onConnected (Add) and Disconnected, DisconnectForce (Remove); (G1) Outbound adds a peer only behind !IsBootNode(); (F1) every connectedPeers.Add(x) is preceded by knownPeers.Add(x) of the same peer (connected ⊆ known); (F2) Disconnected and DisconnectForce remove the peer from the connected set on every path that reports success; (G2) Connected admits (onConnected) only behind not-oversaturated ∨ protected peer ∨ boot-node mode ∨ forceConnection; (P1) the saturation function computes the exempting depth from its known-peers operand and the bin size from its connected-peers operand, and is called with (k.knownPeers, k.connectedPeers). Not decided: the exact connected set over histories (needs execution), the saturation arithmetic.",
 	}, c24)
 }
 
@@ -95,14 +95,14 @@ func c22(r *core.Run) {
 				"a path from "+names[i]+" reaches the function's exit without k.depth = recalcDepth(k.connectedPeers, k.radius, k.peerFilter): the published depth no longer reflects the current peers/radius/reachability")
 		}
 	}
-	r.Floor("C22.F1", "depth-input change sites in kademlia", n, 6)
+	r.Floor("C22.F1", "depth-input change sites in kademlia", n, 3)
 
 	la := core.NewLockAnalysis(w, kadPkg)
 	la.Run()
 	ex := map[string]string{kadPkg + ".New": "constructor, object not yet published"}
 	a := la.CheckGuarded(r, "C22.Lk1", kadT, "depth", kadT+".depthMu", ex)
 	b := la.CheckGuarded(r, "C22.Lk1", kadT, "radius", kadT+".depthMu", ex)
-	r.Floor("C22.Lk1", "accesses to Kad.depth / Kad.radius", a+b, 10)
+	r.Floor("C22.Lk1", "accesses to Kad.depth / Kad.radius", a+b, 5)
 
 	// Y1 recalcDepth purity
 	rd := w.Func(kadPkg, "recalcDepth")
@@ -134,6 +134,82 @@ func c22(r *core.Run) {
 	if bad != nil {
 		pos = bad.Pos()
 	}
+	// G1: unreachable peers influence nothing — in every iteration callback of recalcDepth a
+	// captured counter/candidate is written only on paths where filter(addr) returned false
+	nW := 0
+	for _, cl := range core.Closures(rd) {
+		if len(cl.Params) == 0 {
+			continue
+		}
+		addr := cl.Params[0]
+		_, passed := core.AtomEdges(cl, core.BoolCallAtom(func(c *ssa.Call) bool {
+			if c.Call.IsInvoke() || len(c.Call.Args) != 1 || c.Call.Args[0] != ssa.Value(addr) {
+				return false
+			}
+			p, ok := core.LoadedFrom(c.Call.Value)
+			if ok {
+				_, isFV := p.(*ssa.FreeVar)
+				return isFV
+			}
+			_, isFV := c.Call.Value.(*ssa.FreeVar)
+			return isFV
+		}))
+		core.EachInstr(cl, func(_ *ssa.BasicBlock, _ int, in ssa.Instruction) {
+			st, ok := in.(*ssa.Store)
+			if !ok {
+				return
+			}
+			fv, ok := st.Addr.(*ssa.FreeVar)
+			if !ok {
+				return
+			}
+			nW++
+			r.Check("C22.G1", lsKey("C22.G1", cl, "write of "+fv.Name()+" behind the reachability filter"), st.Pos(), len(passed) > 0 && core.OnlyBehind(cl, st, passed),
+				"a peer rejected by the reachability filter changes no counter or candidate of the depth computation", "the depth computation updates "+fv.Name()+" for a peer before (or without) consulting the reachability filter: unreachable peers count towards saturation / the nearest-neighbour low watermark")
+		})
+	}
+	r.Floor("C22.G1", "counter/candidate updates in recalcDepth's callbacks", nW, 3)
+	// G2: the result never exceeds the radius; G3: zero for at most nnLowWatermark peers
+	radius := rd.Params[1]
+	nRet := 0
+	core.EachInstr(rd, func(_ *ssa.BasicBlock, _ int, in ssa.Instruction) {
+		ret, ok := in.(*ssa.Return)
+		if !ok {
+			return
+		}
+		nRet++
+		v := ret.Results[0]
+		okCap := v == ssa.Value(radius)
+		if k, isC := core.ConstInt(v); isC && k == 0 {
+			okCap = true
+			few, _ := core.AtomEdges(rd, cmpAtom(func(x ssa.Value) bool {
+				c, _ := core.CallOf(x)
+				return c != nil && core.IsCallTo(c, psT+"Length")
+			}, func(y ssa.Value) bool {
+				if k, ok := core.ConstInt(y); ok {
+					return k >= 3
+				}
+				return core.DerivesFrom(y, func(x ssa.Value) bool {
+					p, ok := core.LoadedFrom(x)
+					if !ok {
+						return false
+					}
+					g, ok := p.(*ssa.Global)
+					return ok && g.Name() == "nnLowWatermark"
+				}, nil)
+			}, "<="))
+			r.Check("C22.G3", core.Key("C22.G3", rd, "zero depth for few peers"), ret.Pos(), len(few) > 0 && core.OnlyBehind(rd, ret, few),
+				"the constant depth 0 is returned exactly on the few-peers branch", "return 0 is not guarded by the peers.Length() <= nnLowWatermark test")
+		}
+		if !okCap {
+			fits, _ := core.AtomEdges(rd, cmpAtom(func(x ssa.Value) bool { return x == ssa.Value(radius) }, func(y ssa.Value) bool { return core.SameExpr(core.Forward(y), core.Forward(v)) }, ">="))
+			okCap = len(fits) > 0 && core.OnlyBehind(rd, ret, fits)
+		}
+		r.Check("C22.G2", core.Key("C22.G2", rd, "result <= radius"), ret.Pos(), okCap,
+			"every returned depth is the radius itself, zero, or a value tested to be at most the radius", "a depth can be returned without the radius cap")
+	})
+	r.Floor("C22.G2", "returns of recalcDepth", nRet, 3)
+
 	r.Saw(core.FuncName(rd))
 	r.Check("C22.Y1", core.Key("C22.Y1", rd, "depends only on arguments and thresholds"), pos, pure,
 		"recalcDepth is a function of (peer set, radius, filter) and the package thresholds only", "recalcDepth reads or writes state other than its arguments and the package thresholds")
@@ -457,6 +533,46 @@ func c24(r *core.Run) {
 		r.Check("C24.F2", core.Key("C24.F2", fn, "disconnect removes from connected set"), fn.Pos(), ok && nexit > 0,
 			"a disconnected peer is removed from the connected set on every successful path", name+" can finish successfully without connectedPeers.Remove")
 	}
+	// P1: the saturation verdict keeps its operands' roles: the potential depth that exempts
+	// bins from the cap is computed from the KNOWN peers (first list argument), the bin size
+	// from the CONNECTED peers (second list argument) — and Pick/Connected pass
+	// (knownPeers, connectedPeers) in that order
+	if bs := w.Func(kadPkg, "binSaturated"); bs == nil || len(bs.AnonFuncs) == 0 {
+		r.Fatal("unresolved anchor %s.binSaturated (closure expected)", kadPkg)
+	} else {
+		for _, cl := range bs.AnonFuncs {
+			if len(cl.Params) != 4 {
+				continue
+			}
+			r.Saw(core.FuncName(cl))
+			r.Eval(core.EdgeCount(cl))
+			known, connected := cl.Params[1], cl.Params[2]
+			okD, okS := false, false
+			for _, c := range core.Calls(cl, kadPkg+".recalcDepth") {
+				okD = core.Common(c).Args[0] == ssa.Value(known)
+			}
+			for _, c := range core.Calls(cl, psT+"EachBin", psT+"EachBinRev", psT+"BinSize", psT+"BinPeers") {
+				okS = core.Common(c).Args[0] == ssa.Value(connected)
+			}
+			r.Check("C24.P1", core.Key("C24.P1", bs, "depth from known peers, size from connected peers"), cl.Pos(), okD && okS,
+				"the oversaturation verdict measures the bin over the connected peers and exempts bins by the depth of the known peers", "the saturation function computes the exempting depth / the bin size from the wrong peer set: with known ≠ connected an unprotected inbound peer is admitted into a full bin")
+		}
+		n := 0
+		for _, fn := range w.PkgFuncs(kadPkg) {
+			core.EachInstr(fn, func(_ *ssa.BasicBlock, _ int, in ssa.Instruction) {
+				c, ok := in.(*ssa.Call)
+				if !ok || c.Call.IsInvoke() || !loadsField(kadT, "saturationFunc")(core.Forward(c.Call.Value)) {
+					return
+				}
+				n++
+				a := c.Call.Args
+				r.Check("C24.P1", core.Key("C24.P1", fn, "saturationFunc(po, known, connected)"), c.Pos(), len(a) == 4 && isKadList(a[1], "knownPeers") && isKadList(a[2], "connectedPeers"),
+					"the saturation function is consulted with (known peers, connected peers)", "saturationFunc is called with other lists than (k.knownPeers, k.connectedPeers)")
+			})
+		}
+		r.Floor("C24.P1", "saturationFunc calls", n, 2)
+	}
+
 	// G2 Connected
 	if fn := w.Func(kadPkg, "(*Kad).Connected"); fn == nil {
 		r.Fatal("unresolved anchor %s.(*Kad).Connected", kadPkg)
